@@ -61,6 +61,26 @@ class Undecidable(Exception):
     pass
 
 
+class Trace(tuple):
+    """ordered event sequence (trace mode); `|` appends"""
+    __slots__ = ()
+
+    def __or__(self, other):
+        if isinstance(other, Trace):
+            return Trace(tuple(self) + tuple(other))
+        if not other:
+            return self
+        return Trace(tuple(self) + tuple(sorted(other, key=repr)))
+
+    def __ror__(self, other):
+        return Trace(tuple(sorted(other, key=repr)) + tuple(self))
+
+
+def tag_of(v):
+    v = strip(v)
+    return v.tag if isinstance(v, U) else None
+
+
 def strip(v):
     while isinstance(v, (R, MR)):
         v = v.v
@@ -234,6 +254,29 @@ def write_proj(v, projs, new):
     return TOP
 
 
+def moved_locals(ops):
+    out = []
+    for o in ops:
+        if isinstance(o, list) and o and o[0] == 'm' and not o[1][1]:
+            out.append(o[1][0])
+    return out
+
+
+def rv_operands(rv):
+    k = rv[0]
+    if k in ('use', 'repeat'):
+        return [rv[1]]
+    if k == 'cast':
+        return [rv[2]]
+    if k == 'bin':
+        return [rv[2], rv[3]]
+    if k == 'un':
+        return [rv[2]]
+    if k == 'agg':
+        return list(rv[2])
+    return []
+
+
 def fd_name(fd):
     return fd.get('res') or fd.get('def')
 
@@ -257,7 +300,7 @@ Outcome.__new__.__defaults__ = ((),)
 
 class Explorer:
     def __init__(self, facts, inline_depth=3, budget=200000, no_inline=(), force_domain=None,
-                 observe=(), models=None, loop_visits=2, inline_only=None, watch=(), model_hook=None, time_budget=60.0):
+                 observe=(), models=None, loop_visits=2, inline_only=None, watch=(), model_hook=None, time_budget=60.0, trace=False, tag_named=False):
         self.facts = facts
         self.inline_depth = inline_depth
         self.budget = budget
@@ -270,6 +313,8 @@ class Explorer:
         self.inline_only = inline_only
         self.watch = tuple(watch)
         self.model_hook = model_hook
+        self.trace = trace
+        self.tag_named = tag_named
         import time as _t
         self.deadline = _t.time() + time_budget
         self.memo = {}
@@ -327,6 +372,8 @@ class Explorer:
                 }[op]())
             except KeyError:
                 return TOP
+        if op in ('AddWithOverflow', 'SubWithOverflow', 'Add', 'Sub') and self.trace:
+            return sym('%s(%s,%s)' % (op[:3].lower(), show(a), show(b)))
         # absorbing elements for bool ops
         for k, o in ((a, b), (b, a)):
             if isinstance(k, I):
@@ -504,7 +551,7 @@ class Explorer:
         results = {}
         seen = set()
         # state: (bb, stmt_idx, env(dict), events(frozenset), dsrc(dict), visits(dict))
-        stack = [(0, 0, env0, frozenset(), {}, {})]
+        stack = [(0, 0, env0, Trace() if self.trace else frozenset(), {}, {})]
         while stack:
             bb, si, env, events, dsrc, visits = stack.pop()
             self.steps += 1
@@ -537,6 +584,10 @@ class Explorer:
                     continue
                 (loc, projs), rv = st[1], st[2]
                 val = self.rvalue(env, rv, depth, dsrc, loc if not projs else None)
+                if self.trace:
+                    for ml in moved_locals(rv_operands(rv)):
+                        if ml != loc:
+                            env[ml] = TOP
                 if rv[0] == 'agg' and rv[1][0] == 'adt':
                     events = events | {('agg', rv[1][1], rv[1][3])}
                 elif rv[0] == 'agg' and rv[1][0] in ('closure', 'coroutine', 'coroutine_closure'):
@@ -550,10 +601,14 @@ class Explorer:
                             stack.append((bb, idx + 1, e2, events, dsrc, visits))
                         forked = True
                         break
+                    if self.tag_named and nm and isinstance(val, U) and val.tag is None and not val.ch:
+                        val = sym(nm)
                     env[loc] = val
                     if rv[0] != 'discr':
                         dsrc.pop(loc, None)
                 else:
+                    if self.trace:
+                        events = events | {('assign', self.place_desc(env, loc, projs, names), val, st[3])}
                     env[loc] = write_proj(env.get(loc, TOP), projs, val)
                     if projs[0] == '*' and isinstance(env[loc], MR):
                         self.sync_mut(env, env[loc], depth)
@@ -561,6 +616,27 @@ class Explorer:
                 continue
             self.terminator(rec, b['t'], env, events, dsrc, visits, stack, results, depth, names)
         return list(results.keys())
+
+    def place_desc(self, env, loc, projs, names):
+        cur = env.get(loc, TOP)
+        name = tag_of(cur) if isinstance(strip(cur), U) and not isinstance(cur, (R, MR)) else None
+        if name is None:
+            name = names.get(loc)
+        for p in projs:
+            if p == '*':
+                cur = read_proj(cur, ['*'])
+                t = tag_of(cur) if isinstance(cur, U) else None
+                if t:
+                    name = t
+            elif p[0] == 'f':
+                name = '%s.%s' % (name or '?', p[2] if len(p) > 2 and p[2] else p[1])
+                cur = read_proj(cur, [p])
+            elif p[0] == 'd':
+                cur = read_proj(cur, [p])
+            else:
+                name = (name or '?') + '[]'
+                cur = TOP
+        return name or '?'
 
     def sync_mut(self, env, m, depth):
         """propagate the current value of mutable reference m to its origin (if in this
@@ -677,6 +753,12 @@ class Explorer:
         elif k == 'call':
             self.call(rec, t, env, events, dsrc, visits, stack, results, depth)
         elif k == 'drop':
+            if self.trace:
+                loc, projs = t[1]
+                v = read_proj(env.get(loc, TOP), projs)
+                tg = tag_of(v)
+                if tg:
+                    events = events | {('drop', tg, t[3])}
             stack.append((t[2], 0, env, events, dsrc, visits))
         elif k == 'assert':
             stack.append((t[3], 0, env, events, dsrc, visits))
@@ -723,6 +805,9 @@ class Explorer:
         fd, argops, dest, target = t[1], t[2], t[3], t[4]
         args = [self.operand(env, a, depth) for a in argops]
         dloc, dprojs = dest
+        if self.trace:
+            for ml in moved_locals(argops):
+                env[ml] = TOP
 
         margs = [(i, a) for i, a in enumerate(args) if isinstance(a, MR)]
 
@@ -736,11 +821,17 @@ class Explorer:
                 elif final_args is not None and i < len(final_args) and isinstance(final_args[i], R):
                     nm = MR(m.frame, m.loc, m.projs, final_args[i].v)
                 else:
-                    nm = MR(m.frame, m.loc, m.projs, TOP)   # callee not analysed: referent unknown afterwards
+                    # callee not analysed: referent's contents unknown afterwards (its identity tag is kept)
+                    tg = tag_of(m.v)
+                    nm = MR(m.frame, m.loc, m.projs, sym(tg) if tg else TOP)
                 self.sync_mut(e2, nm, depth)
                 for l, v in list(e2.items()):
                     if isinstance(v, MR) and (v.frame, v.loc, v.projs) == (m.frame, m.loc, m.projs):
                         e2[l] = nm
+            if self.tag_named and not dprojs and isinstance(val, U) and val.tag is None and not val.ch:
+                nm = rec['locals'][dloc][1]
+                if nm:
+                    val = sym(nm)
             e2[dloc] = write_proj(e2.get(dloc, TOP), dprojs, val) if dprojs else val
             d2 = dict(dsrc)
             d2.pop(dloc, None)
@@ -780,7 +871,7 @@ class Explorer:
                 cont(TOP, ev | {('callparam', repr(who[1]) if who[0] in ('c', 'm') else '?')})
                 return
         if self.watch and any(name.startswith(w) or deff.startswith(w) for w in self.watch):
-            ev = ev | {('callargs', name, tuple(args))}
+            ev = ev | {('callargs', name, tuple(args), t[5], fd.get('ga', ''))}
         # std::mem::{take, replace, swap} on tracked mutable references
         if name in ('core::mem::take', 'core::mem::replace', 'core::mem::swap') and isinstance(args[0], (MR, R)):
             m = args[0]
@@ -907,8 +998,9 @@ class Explorer:
         if isinstance(v, A) and v.adt == adt:
             cases = [v]
         else:
-            pos = A(adt, 1 if kind == 'opt' else 0, posname, ((0, TOP),))
-            neg = A(adt, 0, 'None', ()) if kind == 'opt' else A(adt, 1, 'Err', ((0, TOP),))
+            tg = v.tag if isinstance(v, U) else None
+            pos = A(adt, 1 if kind == 'opt' else 0, posname, ((0, sym(tg) if tg else TOP),))
+            neg = A(adt, 0, 'None', ()) if kind == 'opt' else A(adt, 1, 'Err', ((0, sym(tg + '.err') if tg else TOP),))
             cases = [pos, neg]
         none = A(self.OPT, 0, 'None', ())
 
